@@ -201,3 +201,62 @@ Print Assumptions C06_unfilled_reserve_is_nothing.
 Example C06_example_insert_is_quiet :
   Forall quiet_node [NText (bs "<b>"); NPrint (XBin BAdd (XVar (bs "n")) (XInt 1)); NText (bs "</b>")].
 Proof. repeat constructor; first [apply quiet_text|apply quiet_print]. Qed.
+
+(* ---- pages that also use components: the insert bodies reach the reserves with their component blocks
+   attached (uses nested in slot bodies included) *)
+Theorem C06_page_with_components_renders_its_layout_filled fs cfg rel p lp uln lname blocks L ins fsp gd (data : list (bytes * value)) :
+  parse_file fs rel = LOk (PProg p) -> p_use p = Some (uln, lname) ->
+  parse_file fs (rel_of cfg lname) = LOk (PProg lp) -> p_use lp = None ->
+  undefined_insert (asort (p_inserts p)) (p_reserves lp) = None ->
+  resolve_components fs cfg (abs_path rel) (p_components p) = LOk blocks ->
+  map strip_s (p_stmts lp) = map strip_s (map cnode L) ->
+  Forall (lay (rid_name (p_reserves lp)) rw_fuel) L -> nodes_ok L ->
+  (forall name, match ins_of_page_att blocks p name with Some x => Some (strip_ins x) | None => None end =
+                match ins name with Some i => Some (strip_ins (cins i)) | None => None end) ->
+  ins_ok ins ->
+  env_from_map gd = EnvOk [data] ->
+  forallb (fun kv : bytes * value => clean (snd kv)) data = true ->
+  exists ss isl, load_page fs cfg rel = LOk (ss, isl) /\
+  exists K, (K <= eval_fuel)%nat -> forall tpl name, alookup name tpl = Some ss ->
+    match run_nodes model_call_spec fsp [data] (map (fill ins) L) with
+    | TOk out SigNormal _ => template_string cx0 cfg tpl name gd = StrOk out
+    | TOk _ _ _ => True
+    | TFail => exists e, template_string cx0 cfg tpl name gd = StrErr e
+    | TNoFuel | TUnprintable => True
+    end.
+Proof. exact (page_with_components_renders_filled_layout fs cfg rel p lp uln lname blocks L ins fsp gd data). Qed.
+Print Assumptions C06_page_with_components_renders_its_layout_filled.
+
+Definition fs6c : fsys :=
+  [(bs "templates/pg.tw.html", FFile (bs "@use('~m')@insert('b')@component('~a')@slot@component('~c', {y: n})@end@end@end"));
+   (bs "templates/layouts/m.tw.html", FFile (bs "<L>@reserve('b')</L>"));
+   (bs "templates/components/a.tw.html", FFile (bs "[@slot]"));
+   (bs "templates/components/c.tw.html", FFile (bs "C{{ y }}"))].
+Definition ins6c (nm : bytes) : option sinsert :=
+  if bytes_eqb nm (bs "b")
+  then Some (IBlock [NComponent (bs "components/a") 1 None
+                       [NText (bs "[");
+                        NSlot [] (Some [NComponent (bs "components/c") 0 (Some [(bs "y", XVar (bs "n"))]) [NText (bs "C"); NPrint (XVar (bs "y"))]]);
+                        NText (bs "]")]])
+  else None.
+
+Example C06_components_in_an_insert_example :
+  exists p blocks,
+    parse_file fs6c (bs "templates/pg.tw.html") = LOk (PProg p) /\
+    resolve_components fs6c default_config (abs_path (bs "templates/pg.tw.html")) (p_components p) = LOk blocks /\
+    (match ins_of_page_att blocks p (bs "b") with Some x => Some (strip_ins x) | None => None end =
+     match ins6c (bs "b") with Some i => Some (strip_ins (cins i)) | None => None end) /\
+    ins_ok ins6c /\
+    (forall tpl, new_template fs6c default_config = LOk tpl ->
+       template_string cx0 default_config tpl (bs "pg") [(bs "n", GInt 3)] = StrOk (bs "<L>[C3]</L>")).
+Proof.
+  assert (Hr : match new_template fs6c default_config with
+               | LOk tpl => template_string cx0 default_config tpl (bs "pg") [(bs "n", GInt 3)]
+               | _ => StrPanic
+               end = StrOk (bs "<L>[C3]</L>")) by (vm_compute; reflexivity).
+  eexists. eexists.
+  split; [vm_compute; reflexivity|]. split; [vm_compute; reflexivity|]. split; [vm_compute; reflexivity|].
+  split.
+  { intros nm i. unfold ins6c. destruct (bytes_eqb nm (bs "b")); [intros [= <-]; cbn; repeat split; lia|discriminate]. }
+  intros tpl Ht. rewrite Ht in Hr. exact Hr.
+Qed.
